@@ -25,16 +25,19 @@ type vxConn struct {
 	script   [][]byte // datagrams handed to the reader, one per Read
 	after    func()   // called by the Read that finds the script exhausted (e.g. observe, then Close)
 	cp       func()   // control point: other goroutines may run here (vh_C10_preempt)
+	entered  int      // number of Write calls issued (returned or not)
 }
 
 func newVxConn() *vxConn { return &vxConn{unblock: make(chan struct{})} }
 
 func (c *vxConn) Write(p []byte) (int, error) {
+	c.entered++
+	fail := c.failNext // the failure belongs to the write that was issued first, not to one that overtakes it
+	c.failNext = false
 	if c.cp != nil {
-		c.cp() // the write has not happened yet
+		c.cp() // the write has been issued and has not returned yet (it may still succeed or fail)
 	}
-	if c.failNext {
-		c.failNext = false
+	if fail {
 		return 0, errVxWrite
 	}
 	cp := make([]byte, len(p))
@@ -100,6 +103,7 @@ type vxCollector struct {
 	closed  int
 	onClose func() // runs inside Close (another caller overlapping at this point)
 	cp      func()
+	client  *Client
 }
 
 func (c *vxCollector) Start(rate time.Duration, f func(now time.Time)) error {
@@ -109,6 +113,12 @@ func (c *vxCollector) Start(rate time.Duration, f func(now time.Time)) error {
 }
 
 func (c *vxCollector) Close() error { // precondition of C15: the collector's Close succeeds
+	// the real tickerCollector.Close waits for a callback in flight, and the callback (Agent.Collect ->
+	// handleAgentCallback) takes the client's mutex: stopping the collector while holding it deadlocks
+	// whenever a tick is being processed
+	if c.client != nil {
+		vxAssert(!vxRWMutexHeld(&c.client.mux), "Close stops the collector without holding the client's mutex (a tick in flight needs it: deadlock)")
+	}
 	if c.cp != nil {
 		c.cp() // the ticker goroutine has not been stopped yet
 	}
@@ -141,6 +151,7 @@ func vxNewClient(opts ...ClientOption) *vxClientEnv {
 	c, err := NewClient(env.conn, all...)
 	vxAssert(err == nil && c != nil, "NewClient succeeds")
 	env.c = c
+	env.coll.client = c
 	return env
 }
 
